@@ -3,6 +3,7 @@ import vlib
 from checks import langgen as lg
 from checks import langcommon as lc
 from checks import objgen as og
+from checks import gengen
 
 TRUSTED_BASE = [
     "Coq 8.16.1 kernel (coqc); vm_compute only in the Examples",
@@ -12,7 +13,7 @@ TRUSTED_BASE = [
     "modelled, not verified: the reference interpreter's object layer (Lang/Eval.v) is the documentation's rules - base-first construction, "
     "field initialisers before the constructor body, overload choice by least conversion cost over static types, most-derived override for "
     "virtual calls, super.m() without dispatch, statics per class, destructors derived-first when the last reference goes - and the implementation "
-    "is tied to it by differential execution. Generic classes are not in the model (partial). Orders the documentation leaves open (several "
+    "is tied to it by differential execution. Generic classes are covered by monomorphisation: the source declares the templates once, the interpreter receives one class per reached instantiation (checks/gengen.py); upcasts between generic classes are not generated. Orders the documentation leaves open (several "
     "objects released by one scope exit) are flagged by the interpreter and skipped.",
 ]
 
@@ -25,6 +26,10 @@ def run(chk):
     for i in range(n):
         g = og.ObjGen(rng)
         progs.append(g.program())
+    ngen = n // 3
+    for i in range(ngen):
+        src, fns, classes = gengen.gen(rng)
+        progs.append((fns, classes, src))
     recs, counts = lc.differential(chk, progs, "c08")
     agree = [r for r in recs if r["verdict"] == "agree"]
     feats = {"overrides": 0, "super_calls": 0, "overloads": 0, "dtors": 0, "depth3": 0, "statics": 0}
@@ -35,6 +40,9 @@ def run(chk):
         feats["dtors"] += "destructor()" in s
         feats["statics"] += ".cnt" in s
         cl = r["fns"][1]
+        if len(r["fns"]) == 3:
+            feats["generic"] = feats.get("generic", 0) + 1
+            continue
         feats["overloads"] += any(len({m[0] for m in c["meths"]}) < len(c["meths"]) for c in cl)
         byname = {c["name"]: c for c in cl}
         def depth(c):
